@@ -30,6 +30,10 @@ def make_row(hs, label):
         return {'id': 1000002}
     if label == 'F25':
         return {'id': 2.5}
+    if label == 'I1':
+        return {'id': 1}               # equal to 1.0 (and hash-equal), printed differently: two different ids
+    if label == 'F1':
+        return {'id': 1.0}
     if label == 'XF':
         return {'x': 1.0000004}        # differs from X by less than any display tolerance: still another row
     if label == 'XT':
@@ -91,6 +95,10 @@ def row_label(hs, row):
         return 'N1M2'
     if i == 2.5 and isinstance(i, float):
         return 'F25'
+    if i == 1 and isinstance(i, float):
+        return 'F1'
+    if i == 1 and isinstance(i, int) and not isinstance(i, bool):
+        return 'I1'
     if isinstance(i, hs.Ref):
         return 'RD' if i.has_value else 'R'
     return '?'
@@ -115,6 +123,8 @@ class GridSpec(H.Spec):
 
     def fresh(self, root):
         hs = self.hs
+        from mc import modstate
+        modstate.restore()              # every history starts from the library's import-time module state (memos of earlier histories gone)
         if root[0] in ('fresh', 'fresh-numeric', 'fresh-kinds'):
             g = hs.Grid(version='3.0', metadata={'m': 'meta'}, columns=[('id', []), ('x', [('u', 'kg')]), ('dup', [])])
             return g, []
@@ -518,11 +528,11 @@ class C15Numeric(GridSpec):
     prop = 'C15'
     name = 'grid-numeric-ids'
     ROOTS = [['fresh-numeric']]
-    ROWS = ['E', 'N1M1', 'N1M2', 'F25']
+    ROWS = ['E', 'N1M1', 'N1M2', 'I1', 'F1']
     NONDICT = []
 
     def lookup_keys(self):
-        return ['1000001', '1000002', '2.5', '1e+06', 'zz']
+        return ['1000001', '1000002', '1', '1.0', '1e+06', 'zz']
 
     def ops(self, g, model):
         return [o for o in GridSpec.ops(self, g, model) if o[0] not in ('extend', 'extend_gen')]
